@@ -291,10 +291,19 @@ def execute(sc, prop):
     def rec_dump():
         h.log.append(('dump', solver.t, solver.count, dict(solver._get_solver_data())))
     solver.dump_output = rec_dump
+    # another solver of the same process has callbacks of its own (registered through the public methods); they must
+    # never run during this solver's steps
+    if sc.get('decoy', 1):
+        decoy = SM.Solver(dim=1, integrator=FakeIntegrator(h, []), tf=tf, dt=dt_given)
+        decoy.add_pre_step_callback(lambda s: h.log.append(('foreign', 'pre')))
+        decoy.add_post_step_callback(lambda s: h.log.append(('foreign', 'post')))
+    via_api = bool(int(sc.get('n_pre', 0)) + int(sc.get('n_post', 0))) and len(sc.get('answers') or []) % 2 == 0
     for i in range(int(sc.get('n_pre', 0))):
-        solver.pre_step_callbacks.append(lambda s, i=i: h.log.append(('pre', i, s.t)))
+        cb = (lambda s, i=i: h.log.append(('pre', i, s.t)))
+        solver.add_pre_step_callback(cb) if via_api else solver.pre_step_callbacks.append(cb)
     for i in range(int(sc.get('n_post', 0))):
-        solver.post_step_callbacks.append(lambda s, i=i: h.log.append(('post', i, s.t)))
+        cb = (lambda s, i=i: h.log.append(('post', i, s.t)))
+        solver.add_post_step_callback(cb) if via_api else solver.post_step_callbacks.append(cb)
     ci = int(sc.get('cmd_interval', 0))
     if ci > 0:
         solver.set_command_handler(lambda s: h.log.append(('cmd', s.count)), ci)
@@ -384,6 +393,9 @@ def execute(sc, prop):
                         if a > 5 * undamped or a < 0.2 * undamped:
                             probe('adaptive_jump')
                         undamped = a
+            if kind == 'foreign':
+                violate('callbacks', 'a %s-step callback registered on another Solver instance ran during this solver\'s step %d' % (e[1], step_index))
+                break
             if kind == 'cts':
                 seen_cts = True
             elif kind == 'pre':
